@@ -199,6 +199,24 @@ def run(ctx):
         ctx.ob("C12.M2.emit-fast-path-strict-set", tag + "eval_impl|strict_undefined", {"Strict", "SemiStrict"} in sets,
                "no test for exactly {Strict, SemiStrict} (printing an undefined) found; tests: %s" % [sorted(x) for x in sets],
                ev.loc)
+        # ---- M7: printing decides undefined-ness on every path.  Whatever else the Emit handler looks at (output
+        # mode, formatter kind), each path through it passes the {Strict, SemiStrict} test or hands the value to the
+        # formatter, which makes the same decision; a path that skips both prints/drops an undefined silently.
+        from .. import arms
+        INSTR = "minijinja::compiler::instructions::Instruction"
+        disp = arms.enum_switches(prog, ev, INSTR)
+        ctx.need(disp, "C12.M7: dispatch switch not found")
+        regs = arms.arm_regions(prog, ev, disp[0][0], INSTR)
+        emit = regs.get("Emit", set())
+        entry = arms.variant_targets(prog, ev, disp[0][0], INSTR).get("Emit")
+        deciders = {bb for bb in emit if ev.term(bb)["k"] == "switch" and flow.matches_variants(prog, ev, bb, UB) == {"Strict", "SemiStrict"}}
+        deciders |= {c.bb for c in arms.calls_in(ev, emit) if c.name == "minijinja::environment::Environment::format"}
+        exits = {t for b in emit for t in ev.succ[b] if t not in emit}
+        ok7 = entry is not None and bool(deciders) and cfg.paths_must_pass(ev, entry, deciders, exits)
+        ctx.ob("C12.M7.emit-decides-undefined-on-every-path", tag + "eval_impl|Emit", ok7,
+               "a path through the Emit handler reaches the next instruction without the {Strict, SemiStrict} test "
+               "and without Environment::format: an undefined value printed there is silently accepted in the strict "
+               "modes", ev.where(entry) if entry is not None else ev.loc)
         # ---- M3
         n3 = 0
         for f in prog.fns.values():
